@@ -54,13 +54,13 @@ def real_value(g, name, shape, avail, inputs):
 def gen_chain(src, opts):
     g = G(src, opts)
     avail = set(g.sizes)
-    node = gauss_leaf(g, avail)
+    node = gauss_leaf(g, avail, zero_row_p=0.15)
     depth = g.rint((1, 3))
     for _ in range(depth):
         inp = typeof(node)[0]
         ints = sorted(n for n, d in inp.items() if d[0] != "real")
         reals = sorted(n for n, d in inp.items() if d[0] == "real")
-        op = g.pick(["add", "add", "subs_real", "subs_real", "subs_int", "rename", "affine_or_all", "align", "neg", "minus", "cat", "wrapped_subs", "wrapped_subs"])
+        op = g.pick(["add", "add", "subs_real", "subs_real", "subs_int", "rename", "affine_or_all", "align", "neg", "minus", "cat", "cat", "wrapped_subs", "wrapped_subs"])
         if op == "wrapped_subs":
             # substitute into a lazy term whose input order differs from the Gaussian's:
             # the substitution then reaches the Gaussian in non-input order
@@ -84,7 +84,7 @@ def gen_chain(src, opts):
                 node = ("sub", wrapped, tuple(vals))
             continue
         if op == "add":
-            other = gauss_leaf(g, avail)
+            other = gauss_leaf(g, avail, zero_row_p=0.15)
             if g.chance(0.4) and len(reals) <= 3:
                 # the same inputs in another order (real and batch inputs permuted independently)
                 other = gauss_leaf(g, avail, real_names=g.perm(reals))
